@@ -688,6 +688,11 @@ func (s *Server) Invoke(responseWriter http.ResponseWriter, invoke *interop.Invo
 					// Because following fast invoke will start new (supressed) Init phase without reset call
 					s.Shutdown(&interop.Shutdown{DeadlineNs: metering.Monotime() + int64(resetDefaultTimeoutMs*1000*1000)})
 				}
+				if err == ErrInitResetReceived {
+					// the reservation is being reset (timeout): there is no invocation left to dispatch,
+					// and dispatching it would race with the reset and start a new environment for it
+					return
+				}
 			}
 
 			if err := s.FastInvoke(responseWriter, invoke, false); err != nil {
